@@ -104,9 +104,19 @@ def generate(rseed, tier='quick'):
 # ---------------------------------------------------------------- execution
 
 
+RULE_KEYS = ('regex', 'operation', 'algorithm_key', 'op_config')
+
+
 def _export_key(recipe_list):
-  """Canonical JSON-ish form of an exported recipe (enum -> value)."""
-  return core.jcanon(recipe_list)
+  """Canonical JSON-ish form of an exported recipe (enum -> value), restricted to the four
+  documented keys of a rule so that an implementation may add fields of its own."""
+  out = []
+  for r in core.jcanon(recipe_list):
+    if isinstance(r, dict):
+      out.append({k: r[k] for k in RULE_KEYS if k in r})
+    else:
+      out.append(r)
+  return out
 
 
 def model_export(model):
